@@ -57,3 +57,11 @@ claim("C02",
       "Equality of both directions for every value and SystemTime interop are not decided.",
       "Trusted: specs/tables/calendar_oracle.py; analysis/sym.py; analysis/abs*.py; specs/justifications.txt.",
       "DESIGN.md 5/C02")
+claim("C03",
+      "sibling rule over all operator impls, read/copy term rules, iterator step constants, interval abstract interpretation of the checked add/sub paths",
+      "Decides: each of the 58 operator impls delegates to the same-direction checked form without arithmetic of its own (so operators agree with the checked forms and "
+      "panic only where those refuse); zone-aware addition, subtraction and difference operate on the stored UTC value of both operands; day/week iterators step by "
+      "succ/pred and Days(7); on every checked path no arithmetic step or `as i32` cast can wrap for any operand (abstract interpretation). Numerical exactness of the "
+      "cycle/carry arithmetic is not decided.",
+      "Trusted: analysis/sym.py, analysis/abs*.py, specs/justifications.txt.",
+      "DESIGN.md 5/C03")
